@@ -180,6 +180,19 @@ func (g *bGen) genCase(version uint32, idx int) *bCase {
 			nodes = append(nodes, t.NodeKey)
 		}
 		o.UnitsUnfulfilled = total + uint64(rng.Intn(3))*uint64(rng.Intn(10))
+		// half of the orders were partially filled by earlier batches
+		o.Units = o.UnitsUnfulfilled
+		if rng.Intn(2) == 0 {
+			o.Units += uint64(1 + rng.Intn(30))
+		}
+		if o.Sidecar != 0 {
+			// the ticket's offer is independent of the bid's own fields
+			o.TicketCapacity = int64(o.Units) * 100_000
+			o.TicketPushAmt = o.SelfChanBalance
+			if rng.Intn(2) == 0 {
+				o.TicketPushAmt = int64(rng.Intn(6)) * 50_000
+			}
+		}
 		o.MinUnitsMatch = 1 + uint64(rng.Int63n(int64(total)))
 		if rng.Intn(3) == 0 {
 			o.MinUnitsMatch = total
@@ -571,6 +584,41 @@ func (g *bGen) deviate(c *bCase) {
 				}
 			}
 			c.Msg.Markets[j].Orders = append(c.Msg.Markets[j].Orders, mo)
+			return true
+		}},
+		{"same-nonce-in-two-markets", func() bool {
+			// the entry of one of our orders appears a second time in another market
+			// (their orders relabelled to that market's duration so that the bucket
+			// check passes): which copy ParseRPCBatch keeps depends on Go's map order
+			if len(c.Msg.Markets) < 2 {
+				return false
+			}
+			i := rng.Intn(len(c.Msg.Markets))
+			j := (i + 1 + rng.Intn(len(c.Msg.Markets)-1)) % len(c.Msg.Markets)
+			if len(c.Msg.Markets[i].Orders) == 0 {
+				return false
+			}
+			src := c.Msg.Markets[i].Orders[rng.Intn(len(c.Msg.Markets[i].Orders))]
+			for _, mo := range c.Msg.Markets[j].Orders {
+				if mo.Nonce == src.Nonce {
+					return false
+				}
+			}
+			cp := bMatched{Nonce: src.Nonce, Asks: append([]bTheir{}, src.Asks...), Bids: append([]bTheir{}, src.Bids...)}
+			for x := range cp.Asks {
+				cp.Asks[x].Duration = c.Msg.Markets[j].Duration
+			}
+			for x := range cp.Bids {
+				cp.Bids[x].Duration = c.Msg.Markets[j].Duration
+			}
+			if rng.Intn(2) == 0 && len(cp.Asks)+len(cp.Bids) > 1 {
+				if len(cp.Asks) > 0 {
+					cp.Asks = cp.Asks[:len(cp.Asks)-1]
+				} else {
+					cp.Bids = cp.Bids[:len(cp.Bids)-1]
+				}
+			}
+			c.Msg.Markets[j].Orders = append(c.Msg.Markets[j].Orders, cp)
 			return true
 		}},
 		// ---- our stored order
@@ -1031,6 +1079,65 @@ func (g *bGen) deviate(c *bCase) {
 			return true
 		}},
 		// ---- transaction outputs
+		{"out-value-alt-balance", func() bool {
+			// a channel output funded with another plausible balance than the bid's
+			// self channel balance (ticket push amount, the other side's field, none)
+			ms := c.allMatches()
+			if len(ms) == 0 {
+				return false
+			}
+			m := ms[rng.Intn(len(ms))]
+			idx, self := c.matchOutput(m)
+			if idx < 0 {
+				return false
+			}
+			alts := []int64{0, m.o.TicketPushAmt, m.o.SelfChanBalance, int64(m.t.SelfChanBalance), self + 100_000}
+			rng.Shuffle(len(alts), func(i, j int) { alts[i], alts[j] = alts[j], alts[i] })
+			for _, a := range alts {
+				if a != self {
+					c.Msg.TxOuts[idx].Value += a - self
+					return true
+				}
+			}
+			return false
+		}},
+		{"out-script-related-keys", func() bool {
+			// the funding script over keys related to, but different from, the advertised
+			// ones: negated points (same x coordinate), roles kept
+			ms := c.allMatches()
+			if len(ms) == 0 {
+				return false
+			}
+			m := ms[rng.Intn(len(ms))]
+			idx, _ := c.matchOutput(m)
+			if idx < 0 {
+				return false
+			}
+			neg := func(k string) string {
+				if len(k) < 2 {
+					return k
+				}
+				if k[:2] == "02" {
+					return "03" + k[2:]
+				}
+				return "02" + k[2:]
+			}
+			ourKey, theirKey := m.ourKey(), m.t.MultiSigKey
+			switch rng.Intn(3) {
+			case 0:
+				ourKey = neg(ourKey)
+			case 1:
+				theirKey = neg(theirKey)
+			default:
+				ourKey, theirKey = neg(ourKey), neg(theirKey)
+			}
+			sp := bFundScriptOf(m.taproot(), ourKey, theirKey)
+			if sp == nil || *sp == c.Msg.TxOuts[idx].Script {
+				return false
+			}
+			c.Msg.TxOuts[idx].Script = *sp
+			return true
+		}},
 		{"out-value", func() bool {
 			o := pickOut()
 			if o == nil {
@@ -1122,7 +1229,7 @@ func (g *bGen) deviate(c *bCase) {
 	// half of the deviations come from the sites closest to the property under check
 	focus := map[string][]string{
 		"C01": {"batch-version", "batch-version-flag", "height-hint-edge", "height-wrap", "clearing-price",
-			"market-duration", "move-order-to-other-market", "our-rate", "our-duration", "our-auction-type",
+			"market-duration", "move-order-to-other-market", "same-nonce-in-two-markets", "our-rate", "our-duration", "our-auction-type",
 			"our-side", "our-unfulfilled", "our-min-match", "allow-list", "deny-list", "their-side",
 			"their-duration", "their-auction-type", "their-rate", "their-node-key", "their-units", "extra-match",
 			"drop-match", "unknown-our-nonce"},
@@ -1131,7 +1238,7 @@ func (g *bGen) deviate(c *bCase) {
 			"diff-new-version", "diff-acct-key", "diff-drop", "diff-duplicate-plain", "diff-uninvolved-account",
 			"acct-value", "acct-version", "acct-expiry", "acct-batch-key", "acct-secret", "acct-auctioneer-key",
 			"out-value", "out-script", "out-wrong-script-kind", "our-acct-key"},
-		"C03": {"our-chan-type", "their-chan-type", "our-key-index", "our-sidecar", "their-multisig-key",
+		"C03": {"out-value-alt-balance", "out-script-related-keys", "our-chan-type", "their-chan-type", "our-key-index", "our-sidecar", "their-multisig-key",
 			"our-self-balance", "their-self-balance", "their-units", "out-value", "out-script", "out-swap-scripts",
 			"out-drop", "out-wrong-script-kind", "extra-match"},
 	}
